@@ -134,13 +134,15 @@ Ltac inv_ok H := inversion H; subst; rewrite ?set_nth_length, ?length_top; split
 
 Lemma own_stmt_length s : forall own n j, own_stmt s own = Some (n, j) -> length n = length own /\ length j = length own.
 Proof.
-  induction s as [r|r v|r v|r vs|r|v|v|r v|d s0|r vs|r v|x v|v| | | |a IHa b IHb|a IHa b IHb|b IHb|c args eff IHe];
+  induction s as [r|r v|r v|r vs|r|v|v|r v|d s0|r vs|r v|x v|r v|v| | | |a IHa b IHb|a IHa b IHb|b IHb|c args eff IHe];
     intros own n j H; simpl in H; try (inv_ok H).
   - destruct (fw (nth v own fbot)); [inv_ok H|discriminate].
   - destruct (fw (nth v own fbot)); [inv_ok H|discriminate].
   - destruct (fw (nth v own fbot)); [inv_ok H|discriminate].
   - destruct (fw (nth d own fbot)); [inv_ok H|discriminate].
-  - destruct (fp (nth x own fbot)); [inv_ok H|]. destruct (fk (nth v own fbot)); [inv_ok H|discriminate].
+  - destruct (fp (nth x own fbot)); [inv_ok H|]. destruct (fk (nth v own fbot)); [|discriminate].
+    inversion H; subst. unfold unpriv. rewrite ?set_nth_length, ?length_top. split; reflexivity.
+  - destruct (Nat.eqb r v); inv_ok H.
   - destruct (fk (nth v own fbot)); [inv_ok H|discriminate].
   - destruct (own_stmt a own) as [[na ja]|] eqn:A; [|discriminate].
     destruct (own_stmt b na) as [[nb jb]|] eqn:B; [|discriminate].
@@ -172,6 +174,36 @@ Proof.
   - apply IH in H. destruct H as (L & M & E). split.
     + rewrite L. apply length_andl. rewrite length_andl; lia.
     + split; auto. intros v. eapply fle_trans; [apply M|]. rewrite nth_andl. apply fle_fand_l.
+Qed.
+
+Lemma unpriv_length v own : length (unpriv v own) = length own.
+Proof. unfold unpriv. apply set_nth_length. Qed.
+
+Lemma unpriv_le v own u : fle (nth u (unpriv v own) fbot) (nth u own fbot) = true.
+Proof.
+  unfold unpriv. destruct (Nat.eq_dec u v) as [->|Hne].
+  - destruct (Nat.lt_ge_cases v (length own)) as [L|G].
+    + rewrite nth_set_nth_eq by exact L. destruct (nth v own fbot) as [[] [] []]; reflexivity.
+    + rewrite nth_beyond by (rewrite set_nth_length; exact G). reflexivity.
+  - rewrite nth_set_nth_neq by auto. destruct (nth u own fbot) as [[] [] []]; reflexivity.
+Qed.
+
+Lemma unpriv_k v own u : fk (nth u (unpriv v own) fbot) = fk (nth u own fbot).
+Proof.
+  unfold unpriv. destruct (Nat.eq_dec u v) as [->|Hne].
+  - destruct (Nat.lt_ge_cases v (length own)) as [L|G].
+    + rewrite nth_set_nth_eq by exact L. reflexivity.
+    + rewrite !nth_beyond; auto. rewrite set_nth_length. exact G.
+  - rewrite nth_set_nth_neq by auto. reflexivity.
+Qed.
+
+Lemma unpriv_w v own u : fw (nth u (unpriv v own) fbot) = fw (nth u own fbot).
+Proof.
+  unfold unpriv. destruct (Nat.eq_dec u v) as [->|Hne].
+  - destruct (Nat.lt_ge_cases v (length own)) as [L|G].
+    + rewrite nth_set_nth_eq by exact L. reflexivity.
+    + rewrite !nth_beyond; auto. rewrite set_nth_length. exact G.
+  - rewrite nth_set_nth_neq by auto. reflexivity.
 Qed.
 
 (* ---- the invariant ---- *)
@@ -360,6 +392,8 @@ Proof.
     destruct (fp (nth x own fbot)) eqn:Px.
     + inversion S; subst; clear S. apply PInv_reflag; auto; cbn [fw fk]; intros B; apply andb_prop in B; tauto.
     + destruct (fk (nth v own fbot)) eqn:Kv; [|discriminate]. inversion S; subst; clear S.
+      assert (I1 : PInv h0 Ww Wk (h, rs, lg) (unpriv v own)).
+      { eapply PInv_mono; eauto. apply unpriv_length. apply unpriv_le. }
       apply PInv_reflag; auto; cbn [fw fk]; intros B; try exact B. apply andb_prop in B. tauto.
   - (* store, register now shows the stored slice *)
     destruct (fp (nth x own fbot)) eqn:Px.
@@ -368,10 +402,31 @@ Proof.
       * cbn [fw]. intros B. apply andb_prop in B. eapply owned_w; eauto. tauto.
       * cbn [fk]. intros B. apply andb_prop in B. eapply owned_k; eauto. tauto.
     + destruct (fk (nth v own fbot)) eqn:Kv; [|discriminate]. inversion S; subst; clear S.
+      assert (I1 : PInv h0 Ww Wk (h, rs, lg) (unpriv v own)).
+      { eapply PInv_mono; eauto. apply unpriv_length. apply unpriv_le. }
       apply PInv_assign with (h := h); auto.
       * eapply PInv_len; eauto.
       * cbn [fw]. intros B. apply andb_prop in B. eapply owned_w; eauto. tauto.
-      * intros _. eapply owned_k; eauto.
+      * intros _. eapply owned_k; eauto. rewrite unpriv_k. exact Kv.
+  - (* bind, register unchanged *)
+    destruct (Nat.eqb r v); inversion S; subst; clear S; auto.
+    apply PInv_reflag; [|discriminate|discriminate].
+    apply PInv_reflag; auto; intros B; unfold fand in B; cbn [fw fk] in B; apply andb_prop in B; tauto.
+  - (* bind, the class register now shows the temporary's object *)
+    destruct (Nat.eqb r v) eqn:Erv.
+    + inversion S; subst; clear S. apply Nat.eqb_eq in Erv. subst v.
+      (* r = v: the register is assigned its own value *)
+      assert (E : set_nth r s rs = rs).
+      { clear - H. revert r H. induction rs as [|z rs IH]; intros [|r] H; simpl in *; try discriminate; auto.
+        - inversion H; reflexivity.
+        - f_equal. apply IH. exact H. }
+      rewrite E. exact I.
+    + inversion S; subst; clear S.
+      apply PInv_reflag; [|discriminate|discriminate].
+      apply PInv_assign with (h := h); auto.
+      * eapply PInv_len; eauto.
+      * intros B. unfold fand in B; cbn [fw] in B. apply andb_prop in B. eapply owned_w; eauto. tauto.
+      * intros B. unfold fand in B; cbn [fk] in B. apply andb_prop in B. eapply owned_k; eauto. tauto.
   - (* escape *)
     destruct (fk (nth v own fbot)) eqn:Kv; [|discriminate]. inversion S; subst; clear S.
     pose proof (owned_k _ _ _ _ _ _ _ _ _ I H Kv) as K.
@@ -618,4 +673,33 @@ Example alias_probes_are_rejected :
   body_checked [0] [false; true; false] [false; false; false] (seq [SSub 2 1; SStore 0 2; SReturn]) = false /\
   (* storing into an object after it was handed out lets the stored value escape *)
   body_checked [1] [false; false] [false; false] (seq [SMake 1; SEscape 1; SStore 1 0; SReturn]) = false.
+Proof. vm_compute. repeat split. Qed.
+
+(* NEGATIVE EXAMPLES (fourth audit): the counter-instances that the previous version of the check accepted.
+   - an object register bound to ANOTHER live object register by a self-including SPhi, a store through the
+     copy, the original returned / written through: SPhi may not target an object register any more;
+     with SBind (the form the translator now emits for a variable bound to a temporary) the source is killed;
+   - an object register copied into a plain register that is then stored into: stores go into object
+     registers only;
+   - an object built here that is stored into somebody else's object is no longer private: a later store of
+     caller memory into it is an escape;
+   - a call effect that sits behind a return does not meet the callee's contract. *)
+Example fourth_audit_counter_instances_are_rejected :
+  body_checked [1; 2] [false; false; false] [false; false; false]
+    (seq [SMake 1; SMake 2; SPhi 2 [2; 1]; SStore 2 0; SEscape 1; SReturn]) = false /\
+  body_checked [1; 2] [false; false; false] [false; false; false]
+    (seq [SMake 1; SMake 2; SPhi 2 [2; 1]; SStore 2 0; SSet 1; SReturn]) = false /\
+  body_checked [1; 2] [false; false; false] [false; false; false]
+    (seq [SMake 1; SMake 2; SBind 2 1; SStore 2 0; SEscape 1; SReturn]) = false /\
+  body_checked [1; 2] [false; false; false] [false; false; false]
+    (seq [SMake 1; SMake 2; SBind 2 1; SStore 2 0; SSet 1; SReturn]) = false /\
+  body_checked [1] [false; false; false; false] [false; false; false; false]
+    (seq [SMake 1; SAlias 3 1; SStore 3 0; SEscape 1; SReturn]) = false /\
+  body_checked [1; 2] [false; false; false] [false; false; false]
+    (seq [SMake 1; SOpaque 2; SStore 2 1; SStore 1 0; SReturn]) = false /\
+  calls_ok (fun _ => ([true], [true])) (SCall 0 [[0]] (seq [SReturn; SWrite 0; SEscape 0])) = false /\
+  (* the positive counterparts *)
+  body_checked [1; 2] [false; false; false; false] [false; false; false; false]
+    (seq [SMake 1; SMake 2; SBind 2 1; SClone 3 0; SStore 2 3; SEscape 2; SReturn]) = true /\
+  calls_ok (fun _ => ([true], [true])) (SCall 0 [[0]] (seq [SWrite 0; SEscape 0; SReturn])) = true.
 Proof. vm_compute. repeat split. Qed.
